@@ -3,6 +3,7 @@ package workflow
 
 import (
 	"context"
+	"encoding/json"
 	"fmt"
 	"go.flow.arcalot.io/engine/internal/infer"
 	"go.flow.arcalot.io/engine/internal/tablefmt"
@@ -439,9 +440,27 @@ func (l *loopState) onStageComplete(
 
 		// Placing data from the output into the general data structure
 		l.data[WorkflowStepsKey].(map[string]any)[stepID].(map[string]any)[*previousStage] = map[string]any{}
-		l.data[WorkflowStepsKey].(map[string]any)[stepID].(map[string]any)[*previousStage].(map[string]any)[*previousStageOutputID] = *previousStageOutput
+		l.data[WorkflowStepsKey].(map[string]any)[stepID].(map[string]any)[*previousStage].(map[string]any)[*previousStageOutputID] = serializedStageOutput(*previousStageOutput)
 	}
 	l.notifySteps()
+}
+
+// serializedStageOutput returns the form of a stage output that expressions and output schemas
+// can work with. Providers may hand over a struct (e.g. the plugin provider's crashed and
+// deploy_failed outputs); the data model holds primitives, maps and lists only.
+func serializedStageOutput(output any) any {
+	if reflect.ValueOf(output).Kind() != reflect.Struct {
+		return output
+	}
+	encoded, err := json.Marshal(output)
+	if err != nil {
+		return output
+	}
+	var decoded map[string]any
+	if err := json.Unmarshal(encoded, &decoded); err != nil {
+		return output
+	}
+	return decoded
 }
 
 // Marks the outputs of that stage unresolvable.
